@@ -8,6 +8,7 @@ import NutsModel.C20.Strict
 import NutsModel.Facts.C20
 import NutsProofs.Lemmas.C20
 import NutsModel.C20.Outbound
+import NutsModel.C20.Sources
 import NutsProofs.Lemmas.C20b
 
 namespace Nuts.C20.Props
@@ -426,5 +427,126 @@ theorem outbound_https_only_bytes (srv : Nat → Req → Option (Resp × Bytes))
 example : (strictDoBytes (clientPolicy true 10) true Facts.C20.responseReadLimit Facts.C20.responseTooLarge
     (fun _ _ => some ({ status := 200 }, [1, 2, 3])) { scheme := sHttps, host := [110, 108], path := [47] }).2 =
       .ok ({ status := 200 }, [1, 2, 3]) := by decide
+
+/-! ### Deepening round 2026-09-28 — where the options come from (model NutsModel/C20/Sources.lean) -/
+
+/-- the loader's constants, read off the source -/
+def rules : EnvRules := { pre := Facts.C20.envPrefix, envDelim := 95, delim := 46, sep := 44, esc := 92 }
+abbrev srcOrder : List Source := sourceOrderOf Facts.C20.loadSourceOrder
+abbrev kStrict : Bytes := resolveStrict.sStrictmodeKey
+abbrev loadOrder : List LoadStep := loadStepsOf Facts.C20.loadSourceOrder Facts.C20.loadSteps
+
+set_option maxRecDepth 4096 in
+/-- prefix NUTS_, "_" -> ".", list separator "," escaped by a backslash; sources are loaded file, environment, command
+    line; the flag provider gets the map (flags that were not given do not overwrite); shapes of the callbacks -/
+theorem fact_config_sources :
+    Facts.C20.envPrefix = [78, 85, 84, 83, 95] ∧ Facts.C20.envDelimiter = [rules.envDelim] ∧ Facts.C20.keyDelimiter = [rules.delim] ∧
+    Facts.C20.listSeparator = [rules.sep] ∧ Facts.C20.listEscape = [rules.esc] ∧
+    Facts.C20.loadSourceOrder = ["loadFromFile", "loadFromEnv", "loadFromFlagSet"] ∧ srcOrder = [.file, .env, .cli] ∧
+    Facts.C20.flagProviderCalls = ["posflag.Provider(flags, defaultDelimiter, configMap)"] ∧
+    Facts.C20.envKeyExpr = "strings.Replace(strings.ToLower(strings.TrimPrefix(rawKey, defaultEnvPrefix)), defaultEnvDelimiter, defaultDelimiter, -1)" ∧
+    Facts.C20.envValueShape.drop 1 = ["values := splitWithEscaping(rawValue, configValueListSeparator, \"\\\\\")",
+      "for i, value := range values { values[i] = strings.TrimSpace(value) }", "if len(values) == 1 {", "return key, values[0]", "}", "return key, values"] ∧
+    Facts.C20.splitWithEscapingShape = ["s = strings.ReplaceAll(s, escape+separator, \"\\x00\")", "tokens := strings.Split(s, separator)",
+      "for i, token := range tokens { tokens[i] = strings.ReplaceAll(token, \"\\x00\", separator) }", "return tokens"] :=
+  ⟨by decide, by decide, by decide, by decide, by decide, by decide, by decide, by decide, by decide, by decide, by decide⟩
+
+/-- the checks of `ServerConfig.Load` in source order, and the logger formats it accepts -/
+theorem fact_load_steps :
+    loadOrder = [.configFile, .env, .cliSecret, .unmarshal, .movedKeys, .verbosity, .loggerFormat] ∧
+    Facts.C20.loadSteps.length = 6 ∧ Facts.C20.loggerFormats = [[116, 101, 120, 116], [106, 115, 111, 110]] := by decide
+
+/-- **source_precedence.** For every key, environment and value: the command line wins over the environment wins over the
+    config file (order regenerated from `loadConfigMap`) -/
+theorem source_precedence (key : Bytes) (src : Sources) :
+    resolveRaw rules srcOrder key src =
+      match src.cli with
+      | some v => some v
+      | none => match envLookup rules key src.env with
+        | some v => some v
+        | none => src.file := by
+  rw [fact_config_sources.2.2.2.2.2.2.1]; exact resolveRaw_precedence rules key src
+
+/-- **strict_only_off_when_told.** Strict mode (default regenerated: on) resolves to OFF only if one of the three sources
+    carries a value for `strictmode` that converts to false — all files, environments (any spelling, any value) and flags -/
+theorem strict_only_off_when_told (src : Sources)
+    (h : resolveStrict rules srcOrder Facts.C20.defaultStrictmode src = .ok false) :
+    ∃ s r, sourceValue rules kStrict src s = some r ∧ toBool r = .ok false := by
+  unfold resolveStrict at h
+  cases hr : resolveRaw rules srcOrder kStrict src with
+  | none => rw [hr] at h; simp [fact_default_strict] at h
+  | some r =>
+    rw [hr] at h
+    rw [fact_config_sources.2.2.2.2.2.2.1] at hr
+    obtain ⟨s, hs⟩ := resolveRaw_some_source rules kStrict src r hr
+    exact ⟨s, r, hs, h⟩
+
+/-- **command_line_strict_wins.** `--strictmode` on the command line cannot be undone by the environment or the file -/
+theorem command_line_strict_wins (src : Sources) (hc : src.cli = some (.b true)) :
+    resolveStrict rules srcOrder Facts.C20.defaultStrictmode src = .ok true := by
+  unfold resolveStrict
+  rw [source_precedence, hc]; rfl
+
+/-- **sources_to_decision** (configuration text -> decision). If no source carries a `strictmode` value that converts to
+    false, then the node whose strict mode was resolved from those sources refuses EVERY documented insecure setting,
+    whatever all other options are -/
+theorem sources_to_decision (src : Sources) (c : Config)
+    (hres : resolveStrict rules srcOrder Facts.C20.defaultStrictmode src = .ok c.strict)
+    (hnf : ∀ s r, sourceValue rules kStrict src s = some r → toBool r ≠ .ok false)
+    (i : Insecure) (hi : hasInsecure tlds l2s i c = true) : (start tlds l2s c).isRefuse = true := by
+  have hs : c.strict = true := by
+    cases hcs : c.strict with
+    | true => rfl
+    | false =>
+      rw [hcs] at hres
+      obtain ⟨s, r, h1, h2⟩ := strict_only_off_when_told src hres
+      exact absurd h2 (hnf s r h1)
+  exact strict_refuses c hs i hi
+
+/-- non-vacuity: an environment that says "true" in an odd spelling, a file that says false -/
+example : resolveStrict rules srcOrder Facts.C20.defaultStrictmode
+    { file := some (.b false), env := [([78, 85, 84, 83, 95, 83, 116, 114, 105, 99, 116, 77, 111, 100, 101], [32, 84, 82, 85, 69, 32])] } = .ok true := by decide
+/-- and the environment switching strict mode off, with a trimmed value -/
+example : resolveStrict rules srcOrder Facts.C20.defaultStrictmode
+    { env := [([78, 85, 84, 83, 95, 83, 84, 82, 73, 67, 84, 77, 79, 68, 69], [32, 102, 97, 108, 115, 101, 32])] } = .ok false := by decide
+/-- a name without the exact prefix is not a source -/
+example : resolveStrict rules srcOrder Facts.C20.defaultStrictmode
+    { env := [([110, 117, 116, 115, 95, 115, 116, 114, 105, 99, 116, 109, 111, 100, 101], [102, 97, 108, 115, 101])] } = .ok true := by decide
+
+/-- **env_key_normal.** Every environment name maps to a key without "_" and without ASCII upper-case letters -/
+theorem env_key_normal (raw : Bytes) (c : Nat) (h : c ∈ envKey rules.pre rules.envDelim rules.delim raw) :
+    c ≠ 95 ∧ ¬ (65 ≤ c ∧ c ≤ 90) := envKey_normal rules.pre raw c h
+
+/-- NUTS_NETWORK_CERTFILE is the moved key network.certfile -/
+example : envKey rules.pre rules.envDelim rules.delim [78, 85, 84, 83, 95, 78, 69, 84, 87, 79, 82, 75, 95, 67, 69, 82, 84, 70, 73, 76, 69] =
+    [110, 101, 116, 119, 111, 114, 107, 46, 99, 101, 114, 116, 102, 105, 108, 101] := by decide
+
+/-- **env_list_plain.** A value without backslash (and NUL) is split at every comma -/
+theorem env_list_plain (s : Bytes) (h1 : 92 ∉ s) (h0 : 0 ∉ s) : splitWithEscaping rules.sep rules.esc s = splitOn 44 s :=
+  splitWithEscaping_plain 44 92 s h1 h0
+
+/-- `a\,b,c` is the list ["a,b", "c"]; `" false "` is the string "false" -/
+example : envValue rules.sep rules.esc [97, 92, 44, 98, 44, 99] = .l [[97, 44, 98], [99]] ∧
+    envValue rules.sep rules.esc [32, 102, 97, 108, 115, 101, 32] = .s [102, 97, 108, 115, 101] := by decide
+
+/-- **load_check_order.** `Load` with the regenerated step order, every input: an unreadable config file, then a secret on
+    the command line, then a value of the wrong type, then a moved key, then the log settings -/
+theorem load_check_order (i : LoadIn) :
+    loadFull loadOrder Facts.C20.loggerFormats i =
+      if i.badConfigFile then some "config-file" else
+      if i.cliFlags.any isSecretFlag then some "cli-secret" else
+      if i.unmarshalFails then some "unmarshal" else
+      if i.movedKey then some "moved-keys" else
+      if !i.verbosityOk then some "verbosity" else
+      if !Facts.C20.loggerFormats.contains i.loggerFormat then some "loggerformat" else none := by
+  rw [fact_load_steps.1]; exact loadFull_order _ i
+
+/-- **load_full_refines_load.** The complete `Load` refines the abstract `load` of the start-up model: with a readable
+    file, well-typed values and valid log settings they refuse the same configurations for the same reason -/
+theorem load_full_refines_load (c : Config) :
+    loadFull loadOrder Facts.C20.loggerFormats { cliFlags := c.cliFlags, movedKey := c.movedKey } = (load c).map (·.2) := by
+  rw [load_check_order]
+  unfold load
+  cases (c.cliFlags.any isSecretFlag) <;> cases c.movedKey <;> simp <;> decide
 
 end Nuts.C20.Props
